@@ -164,7 +164,94 @@ Example div_premises_sat :
   /\ sweep2d_ok false true (full [2; 2] 0%R) (full [2; 2; 2] 0) (full [1; 1] 1%R) 1%R 1%R 0%R 0%R 0%R 0%R 1%R 2 2 true = true.
 Proof. split; [ apply sweep_ok_div | apply sweep2d_ok_div ]; lra. Qed.
 
+
+(* ------------------------------------------------------------------------------------------ *)
+(* (D3), (D4) the 3D kernels and solver (names qualified: Fteik3d is not imported)              *)
+(* ------------------------------------------------------------------------------------------ *)
+From FT.gen Require Fteik3d.
+Local Strategy 1000 [Fteik3d.sweep Fteik3d.sweep_ok Fteik3d.sweep3d Fteik3d.sweep3d_ok
+                     Fteik3d.fteik3d_p1 Fteik3d.fteik3d_p1_ok].
+
+Lemma t_ana3_ok_div i j k (dz dx dy zsa xsa ysa vzero : R) :
+  Fteik3d.t_ana_ok false true i j k dz dx dy zsa xsa ysa vzero = true.
+Proof. reflexivity. Qed.
+Ltac sleaf3a :=
+  idtac; lazymatch goal with
+  | |- obI false _ = true => reflexivity
+  | |- Fteik3d.t_ana_ok false true _ _ _ _ _ _ _ _ _ _ = true => apply t_ana3_ok_div
+  | |- obD true _ = true => dleaf
+  end.
+Lemma t_anad3_ok_div i j k (dz dx dy zsa xsa ysa vzero : R) :
+  Fteik3d.t_anad_ok false true i j k dz dx dy zsa xsa ysa vzero = true.
+Proof. cbv beta delta [Fteik3d.t_anad_ok]. dwalk sleaf3a. Qed.
+
+(* one 3D node update: the divisors are dsum and the pairwise sums dz2i+dx2i, dz2i+dy2i, dx2i+dy2i *)
+Theorem sweep3_ok_div (tt : arr R) (ttsgn : arr Z) (slow : arr R)
+        (dz dx dy dz2i dx2i dy2i dz2dx2 dz2dy2 dx2dy2 dsum : R)
+        i j k sgnvz sgnvx sgnvy sgntz sgntx sgnty nz nx ny grad :
+  (0 < dz2i)%R -> (0 < dx2i)%R -> (0 < dy2i)%R -> (0 < dsum)%R ->
+  Fteik3d.sweep_ok false true tt ttsgn slow (dz, dx, dy, dz2i, dx2i, dy2i, dz2dx2, dz2dy2, dx2dy2, dsum)
+                   i j k sgnvz sgnvx sgnvy sgntz sgntx sgnty nz nx ny grad = true.
+Proof.
+  intros Hz2 Hx2 Hy2 Hs. cbv beta delta [Fteik3d.sweep_ok]. dwalk sleaf3a.
+Qed.
+
+Ltac sleaf3b :=
+  idtac; lazymatch goal with
+  | |- obI false _ = true => reflexivity
+  | |- Fteik3d.sweep_ok false true _ _ _ _ _ _ _ _ _ _ _ _ _ _ _ _ _ = true => apply sweep3_ok_div; assumption
+  | |- obD true _ = true => dleaf
+  end.
+
+Theorem sweep3d_ok_div (tt : arr R) (ttsgn : arr Z) (slow : arr R) (dz dx dy : R) nz nx ny grad :
+  (0 < dz)%R -> (0 < dx)%R -> (0 < dy)%R ->
+  Fteik3d.sweep3d_ok false true tt ttsgn slow dz dx dy nz nx ny grad = true.
+Proof.
+  intros Hdz Hdx Hdy. cbv beta delta [Fteik3d.sweep3d_ok]. dwalk sleaf3b.
+Qed.
+
+(* the 3D gradient assembly (fteik3d_p1): divisors dz, dx, dy and gn under `if gn > 0` *)
+Ltac sleaf3c :=
+  idtac; lazymatch goal with
+  | |- obI false _ = true => reflexivity
+  | |- Common.norm3d_ok _ _ _ _ _ = true => reflexivity
+  | |- Fteik3d.t_anad_ok false true _ _ _ _ _ _ _ _ _ _ = true => apply t_anad3_ok_div
+  | |- Fteik3d.t_ana_ok false true _ _ _ _ _ _ _ _ _ _ = true => apply t_ana3_ok_div
+  | |- Fteik3d.sweep3d_ok false true _ _ _ _ _ _ _ _ _ _ = true => apply sweep3d_ok_div; assumption
+  | |- obD true _ = true => dleaf
+  end.
+
+Theorem fteik3d_p1_ok_div (dx dy dz : R) grad i j k nx ny nz (tt ttgrad : arr R) (ttsgn : arr Z) :
+  (0 < dz)%R -> (0 < dx)%R -> (0 < dy)%R ->
+  Fteik3d.fteik3d_p1_ok false true dx dy dz grad i j k nx ny nz tt ttgrad ttsgn = true.
+Proof. intros Hdz Hdx Hdy. cbv beta delta [Fteik3d.fteik3d_p1_ok]. dwalk sleaf3c. Qed.
+
+Ltac sleaf3d :=
+  idtac; lazymatch goal with
+  | |- Fteik3d.fteik3d_p1_ok false true _ _ _ _ _ _ _ _ _ _ _ _ _ = true => apply fteik3d_p1_ok_div; assumption
+  | |- _ => sleaf3c
+  end.
+
+(* (D4) the whole 3D solver: no division by zero for positive spacings; no hypothesis on slow (shape or values),
+   the source position, nsweep or the gradient flag.  Divisors: dz, dx, dy (source location, pass setup, gradient),
+   t under `if t > 0` (t_anad at the 8 corners), dsum and the pairwise sums of dz2i, dx2i, dy2i (node update),
+   gn under `if gn > 0`.  Remark (binary64, not proved): dz2i = 1/dz/dz etc. may overflow to inf or underflow to 0,
+   so dsum and the pairwise sums are exposed (0 only if all terms underflow; inf/inf gives NaN, not an exception);
+   the guards `t > 0`, `gn > 0` protect their divisors in binary64 as well. *)
+Theorem fteik3d_ok_div (slow : arr R) (dz dx dy zsrc xsrc ysrc : R) (nsweep : Z) (grad : bool) :
+  (0 < dz)%R -> (0 < dx)%R -> (0 < dy)%R ->
+  Fteik3d.fteik3d_ok false true slow dz dx dy zsrc xsrc ysrc nsweep grad = true.
+Proof. intros Hdz Hdx Hdy. cbv beta delta [Fteik3d.fteik3d_ok]. dwalk sleaf3d. Qed.
+
+Example div3_premises_sat :
+  Fteik3d.fteik3d_ok false true (full [1; 1; 1] 1%R) 1%R 1%R 1%R 0%R 0%R 0%R 1 true = true.
+Proof. apply fteik3d_ok_div; lra. Qed.
+
 Print Assumptions sweep_ok_div.
 Print Assumptions sweep2d_ok_div.
 Print Assumptions fteik2d_p1_ok_div.
 Print Assumptions fteik2d_ok_div_partial.
+Print Assumptions sweep3_ok_div.
+Print Assumptions sweep3d_ok_div.
+Print Assumptions fteik3d_p1_ok_div.
+Print Assumptions fteik3d_ok_div.
